@@ -20,5 +20,15 @@ meta = dict(
     detected_by_check=m.group(5) == '1', check_exit_code=int(m.group(5)),
     violation_classes=classes,
 )
-json.dump(meta, open(os.path.join(d, 'meta.json'), 'w'), indent=1)
+mp = os.path.join(d, 'meta.json')
+if os.path.exists(mp):                      # keep hand-written fields; remember that a seed was missed at first
+    old = json.load(open(mp))
+    for k in ('note', 'summary', 'round'):
+        if k in old:
+            meta[k] = old[k]
+    if old.get('initially_missed') or (not old.get('detected_by_check') and meta['detected_by_check']):
+        meta['initially_missed'] = True
+    if not meta['detected_by_check'] and old.get('why_missed'):
+        meta['why_missed'] = old['why_missed']
+json.dump(meta, open(mp, 'w'), indent=1)
 print(name, 'detected' if meta['detected_by_check'] else 'MISSED', meta['confirmed'])
